@@ -17,6 +17,10 @@ def gen_direct(tier, seed, miri=False):
             length = 1500
         out.append("id=%d threads=%d len=%d seed=%d big=%d clear=%d nullpct=%d spawn=%d" % (
             i, threads, length, rng.randrange(1 << 40), rng.choice([0, 1, 1]), rng.choice([0, 0, 5, 50]), rng.choice([0, 5, 30]), rng.choice([0, 1])))
+        if i % 6 == 5:
+            # sizes at the very edge of what a Layout may hold (isize::MAX - (align - 1) and neighbours); the tally is cleared
+            # before every operation so that no sum leaves the machine word (such sums exist in no real program)
+            out[-1] = out[-1].replace(" clear=%s " % out[-1].split(" clear=")[1].split(" ")[0], " clear=1 ") + " edge=1"
     return out
 
 
